@@ -439,6 +439,11 @@ func newSpannerProber(ctx context.Context, opt ProberOptions, clientOpts ...opti
 }
 
 func backoff(baseDelay, maxDelay time.Duration, retries int) time.Duration {
+	if baseDelay <= 0 {
+		// Nothing to grow: multiplying a non-positive delay does not lengthen it (and float64 cannot
+		// represent every negative duration, so the result would not even be monotone in retries).
+		return baseDelay
+	}
 	backoff, max := float64(baseDelay), float64(maxDelay)
 	for backoff < max && retries > 0 {
 		backoff = backoff * 1.5
